@@ -108,11 +108,23 @@ Example assignment_rounds_example :
   acked st = [[(1, 0)]; [(2, 0)]] /\ delivered st = [[(1, 0)]; [(2, 0)]] /\ slot st = None.
 Proof. vm_compute. repeat split. Qed.
 
-(* one AssignSplits call of the Kinesis splitter lists every pending shard exactly once (and, by
-   restore_resumes_positions_kinesis, under a runner index < n) *)
-Theorem one_reader_per_split_kinesis_call : forall n cs shards, 1 <= n ->
-  Permutation (map (fun a => snd (fst a)) (assign_out n cs shards)) (map sid shards).
-Proof. exact assign_out_each_once. Qed.
+(* WHICH runner reads a split is not part of the property. For ANY function choosing a runner index < n, grouping the
+   splits by it is a partition: every split is in exactly one runner's list. *)
+Theorem one_reader_per_split_any_policy : forall (A : Type) (f : A -> N) (l : list A) n, (forall x, In x l -> f x < n) ->
+  Permutation (flat_map (fun r => filter (fun x => f x =? r) l) (iota_from 0 (N.to_nat n))) l.
+Proof. intros A. exact (@any_policy_is_a_partition A). Qed.
+Print Assumptions one_reader_per_split_any_policy.
+
+(* one AssignSplits call of the Kinesis splitter lists every pending shard exactly once, with its checkpointed cursor,
+   under a runner index < n - for every assignment function into range (the code's uniformlyAssignShard is one) *)
+Theorem one_reader_per_split_kinesis_call : forall f n cs shards, (forall s, In s shards -> f s < n) ->
+  Permutation (map (fun a => snd (fst a)) (assign_out_with f n cs shards)) (map sid shards) /\
+  forall r i c, In (r, i, c) (assign_out_with f n cs shards) ->
+    c = cursor_of cs i /\ r < n /\ exists s, In s shards /\ sid s = i /\ f s = r.
+Proof.
+  intros f n cs shards Hf. split; [apply assign_out_with_each_once; exact Hf|].
+  intros r i c H. apply (assignment_carries_cursor_with f n cs shards r i c H).
+Qed.
 Print Assumptions one_reader_per_split_kinesis_call.
 
 (* ---- one_reader_per_split (Kinesis) and children_after_parents ---- *)
